@@ -29,7 +29,7 @@ m = {
     "setup_cmd": src["setup_cmd"],
     "hooks": src["hooks"],
     "engines": [{"name": "rainlint", "path": "/verif/checker", "serves_properties": [c["property_id"] for c in checks],
-                 "kind_free_text": "custom static analyser (go/packages + go/types + go/ssa + CHA/VTA call graph, x/tools v0.50.0): must-fact data-flow over SSA CFGs, who-may-call/write inventories, table extraction, goroutine-context and lock-set analysis"}],
+                 "kind_free_text": "custom static analyser (go/packages + go/types + go/ssa + CHA/VTA call graph, x/tools v0.50.0): must-fact data-flow over SSA CFGs, who-may-call/write inventories, table extraction, goroutine-context and lock-set analysis, affine-relation abstract interpretation (Karr) with closure inlining"}],
     "checks": checks,
     "notes": src["notes"],
     "not_applicable": na,
